@@ -80,6 +80,11 @@ CLAIMED = {
             'TLC checks Like.tla: a position-set automaton stepping over the text equals the declarative LikeRef for every pattern/text pair of length <= 4 (quick) / <= 5 (thorough) over {%, _, x, y}, with an invariant on every intermediate state set; every pair is instantiated with ordered pairs from 23 characters (all regex metacharacters, quotes, space, non-ASCII, astral) in rotation and evaluated as `select like(a1, a2)` through query_table of rbql-py and rbql-js and through like_to_regex + re; random longer Unicode pairs evaluated by both ports are judged by TLC (LikeTrace).',
             'Single-line texts (as quantified); characters other than % and _ are treated as interchangeable in the exhaustive part (the rotation and the random traces exercise that).',
             'TLA+ LIKE automaton vs declarative matcher model-checked by TLC; exhaustive replay with metacharacter rotation; TLC trace validation'),
+
+    'C16': ('5 C16, 3.3',
+            'TLC explores RbqlIsolation: two instances of RbqlEngine over disjoint variables taking steps in every interleaving, for all 81 pairs of 9 query kinds (plain, top, sorted, distinct count, aggregate, unnest, update, runtime-failing, parse-failing) over tables of <= 2 (quick) / <= 3 (thorough) records; invariant: each engine ends with its solo Ref; the mutant in which both engines share one query context (unnest list, aggregation stage: the rbql-js architecture) is rejected. For chosen pairs TLC enumerates every schedule of observable API events (history variable, one terminal state per schedule) and tlc -simulate samples schedules over all pairs; each is replayed with two real threads under a cooperative scheduler that releases exactly one thread per iterator / writer call, and both results are compared with TLC\'s solo results. Histories of <= 6 queries (succeeding, parse-failing, runtime-failing) run in one interpreter and single queries in fresh interpreters are compared with Ref.',
+            'Interleaving points are the iterator / writer calls; Python port only (rbql-js keeps a module-global context, documented limitation); schedules exhaustive for 3 (quick) / 7 (thorough) pairs with tables of 2 records, sampled otherwise.',
+            'TLA+ composition of two engine instances model-checked by TLC over all interleavings; TLC-generated schedules replayed with real threads under a deterministic scheduler'),
 }
 
 PENDING_REASON = 'check not built yet in this session (specification work in progress; see DESIGN.md section 5 for the plan)'
